@@ -17,7 +17,7 @@ var (
 	c04Left  = []string{"LEFT JOIN", "LEFT HASH_JOIN", "PARALLEL LEFT JOIN", "PARALLEL LEFT HASH_JOIN"}
 	c04Right = []string{"RIGHT JOIN", "RIGHT HASH_JOIN", "PARALLEL RIGHT JOIN", "PARALLEL RIGHT HASH_JOIN"}
 	c04Floor = []string{"type.inner", "type.left", "type.right", "on.equi", "on.nonequi", "on.or", "on.multi", "on.flipped", "keys.str", "keys.num", "dupkeys",
-		"left.empty", "right.empty", "unmatched.left", "unmatched.right", "meta.permute", "meta.flip", "keys.mixed-kind", "alias.prefix", "keys.nested-path", "keys.many", "keys.native", "operands.swapped", "on.between", "on.not"}
+		"left.empty", "right.empty", "unmatched.left", "unmatched.right", "meta.permute", "meta.flip", "keys.mixed-kind", "alias.prefix", "keys.nested-path", "keys.many", "keys.native", "operands.swapped", "on.between", "on.not", "keys.nonword"}
 )
 
 func init() {
@@ -295,6 +295,49 @@ func c04Diff(c *fw.Case, par bool) {
 	many := force == "keys.many" || (force == "" && !mixed && c.Chance(0.008))
 	l, r := c04Tables(c, force, mixed, many)
 	on, feats := c04On(c, force)
+	// key columns whose names are not plain words (hyphens, blanks, non-ASCII
+	// letters, a dollar sign), written back-ticked
+	colText := map[string]string{}
+	if force == "keys.nonword" || (force == "" && c.Chance(0.1)) {
+		rename := map[string]string{"a": "a-1", "k": "k é", "m": "m x", "j": "$j"}
+		for _, tb := range []*gen.Table{l, r} {
+			for _, row := range tb.Rows {
+				for from, to := range rename {
+					if v, ok := row[from]; ok {
+						row[to] = v
+						delete(row, from)
+					}
+				}
+			}
+		}
+		var walk func(p gen.Pred) gen.Pred
+		col := func(name string) string {
+			side, key, _ := strings.Cut(name, ".")
+			if to, ok := rename[key]; ok {
+				colText[side+"."+to] = side + ".`" + to + "`"
+				return side + "." + to
+			}
+			return name
+		}
+		walk = func(p gen.Pred) gen.Pred {
+			switch t := p.(type) {
+			case gen.Cmp:
+				t.L.Col, t.R.Col = col(t.L.Col), col(t.R.Col)
+				return t
+			case gen.And:
+				return gen.And{A: walk(t.A), B: walk(t.B)}
+			case gen.Or:
+				return gen.Or{A: walk(t.A), B: walk(t.B)}
+			case gen.Not:
+				return gen.Not{A: walk(t.A)}
+			case gen.BetweenCols:
+				return gen.BetweenCols{Col: col(t.Col), Lo: col(t.Lo), Hi: col(t.Hi), Neg: t.Neg}
+			}
+			return p
+		}
+		on = walk(on)
+		feats = append(feats, "keys.nonword")
+	}
 	if many {
 		feats = append(feats, "keys.many")
 	}
@@ -348,7 +391,7 @@ func c04Diff(c *fw.Case, par bool) {
 	case "right":
 		strategies = c04Right
 	}
-	ro := gen.RenderOpts{}
+	ro := gen.RenderOpts{ColText: colText}
 	onSQL := gen.RenderPred(on, ro)
 	evals := 0
 	// alias names: also pairs in which one alias is a prefix of the other
